@@ -230,6 +230,46 @@ impl<'a> CompilerState<'a> {
         self.variables.values().map(|v| v.order + 1).max().unwrap_or(0)
     }
 
+    fn collect_labels(
+        s: &StatementLoc<'a>,
+        labels: &mut Vec<String>,
+        gotos: &mut Vec<(&'a str, usize)>,
+        asm_text: &mut String,
+    ) {
+        if let Some(l) = &s.label {
+            labels.push(l.clone());
+        }
+        match &s.statement {
+            Statement::Block(v) => {
+                for x in v {
+                    Self::collect_labels(x, labels, gotos, asm_text);
+                }
+            }
+            Statement::For { body, .. }
+            | Statement::While { body, .. }
+            | Statement::DoWhile { body, .. } => Self::collect_labels(body, labels, gotos, asm_text),
+            Statement::If { body, else_body, .. } => {
+                Self::collect_labels(body, labels, gotos, asm_text);
+                if let Some(e) = else_body {
+                    Self::collect_labels(e, labels, gotos, asm_text);
+                }
+            }
+            Statement::Switch { cases, .. } => {
+                for c in cases {
+                    for x in &c.1 {
+                        Self::collect_labels(x, labels, gotos, asm_text);
+                    }
+                }
+            }
+            Statement::Asm(t, _) => {
+                asm_text.push_str(t);
+                asm_text.push('\n');
+            }
+            Statement::Goto(t) => gotos.push((*t, s.pos)),
+            _ => (),
+        }
+    }
+
     pub fn sorted_variables(&self) -> Vec<(&String, &Variable)> {
         let mut v: Vec<(&String, &Variable)> = self.variables.iter().collect();
         v.sort_by(|a, b| a.1.order.cmp(&b.1.order));
@@ -1993,6 +2033,18 @@ impl<'a> CompilerState<'a> {
                     self.function_bank = Some(bank);
                     let code = self.compile_block(pair)?;
                     self.function_bank = None;
+                    // Every goto must name a label of this function (or of its inline assembly)
+                    let mut labels = Vec::new();
+                    let mut gotos = Vec::new();
+                    let mut asm_text = String::new();
+                    Self::collect_labels(&code, &mut labels, &mut gotos, &mut asm_text);
+                    for (target, pos) in gotos {
+                        if !labels.iter().any(|l| l == target)
+                            && !asm_text.contains(&format!(".{}", target))
+                        {
+                            return Err(self.syntax_error(&format!("Undefined label {}", target), pos));
+                        }
+                    }
                     let f = self.functions.get_mut(&self.current_function).unwrap();
                     f.code = Some(code);
                     self.in_scope_variables.clear();
